@@ -1,4 +1,4 @@
-import ExaModel.Lemmas.RibDown
+import ExaModel.Lemmas.RibEor
 set_option linter.unusedSimpArgs false
 /-!
 # C11 — After any session loss the peer is fully resynchronised (RIB part)
@@ -17,8 +17,10 @@ steps is one, including those with a partially consumed generator.  `lost` is
 `include_withdraw = False` and an empty peer table.
 
 Premise kept from the property text: every cached route is of a family the RIB serves
-(`FamOK`) and adj-rib-out is kept.  The End-of-RIB part of the statement is decided by the
-session model (C05/C10 machinery), not here.
+(`FamOK`) and adj-rib-out is kept.  The End-of-RIB part: `ESess` adds `send_eor` and the
+`_send_eor_messages` step that `_main` performs right after `_send_route_updates` in every
+iteration (`c11_eor_*` below); that the real main loop calls the two in that order is checked by
+the correspondence (operation `eor`) and end to end by the session rig.
 -/
 namespace Exa.Props.C11
 open Exa Exa.Rib
@@ -94,5 +96,82 @@ theorem c11_withdrawn_while_down (s : Sess) (t : Table) (g : Good s t)
   show Option.map _ (AList.lookup n ((((s.step .lost).1.run (opsDown ++ [Op.del n f])).1).rib.replaceRestart prev new).cache) = none
   rw [replaceRestart_cache_none _ _ _ _ d2.wfCache hcache1]
   rfl
+
+/-- **End-of-RIB never overtakes the table.** `_send_eor_messages` sends the markers only when
+    no update generator is in flight (and only if they have not been sent yet). -/
+theorem c11_eor_needs_idle (s : ESess) (h : (s.step .eor).2 ≠ []) :
+    s.core.inflight = none ∧ s.sendEor = true := by
+  unfold ESess.step at h
+  by_cases hc : (s.core.inflight.isNone && s.sendEor) = true
+  · simp only [Bool.and_eq_true, Option.isNone_iff_eq_none] at hc; exact hc
+  · simp [hc] at h
+
+/-- One End-of-RIB marker per family the RIB serves, when they are sent. -/
+theorem c11_eor_per_family (s : ESess) (h : (s.step .eor).2 ≠ []) :
+    (s.step .eor).2 = s.core.rib.families.map Ev.eor := by
+  unfold ESess.step at h ⊢
+  by_cases hc : (s.core.inflight.isNone && s.sendEor) = true
+  · simp [hc]
+  · simp [hc] at h
+
+/-- **Sent once per session**: once the markers have gone out, nothing that can happen in the
+    session (any operations, any transmission steps, further `_send_eor_messages` calls) sends
+    another one. -/
+theorem c11_eor_once (s : ESess) (hn : NoEorInflight s.core) (h : (s.step .eor).2 ≠ [])
+    (ops : List EOp) (hops : ∀ o ∈ ops, o.isUp = true) :
+    ∀ e ∈ ((s.step .eor).1.run ops).2, isEorEv e = false := by
+  have hc : (s.core.inflight.isNone && s.sendEor) = true := by
+    by_cases hc : (s.core.inflight.isNone && s.sendEor) = true
+    · exact hc
+    · simp [ESess.step, hc] at h
+  apply eor_not_repeated _ ops _ _ hops
+  · simp [ESess.step, hc]
+  · simpa [ESess.step, hc] using hn
+
+/-- **End-of-RIB follows the complete table.** After re-establishment (any state `s2` satisfying
+    the invariant against an empty peer table and with no generator yet, see `c11_good_again`),
+    whatever RIB operations
+    arrive before the main loop's first iteration, if the loop then transmits (`start`, `k`
+    generator steps) without further API activity and `_send_eor_messages` sends the markers,
+    the peer's table at that moment is exactly the reported Adj-RIB-Out. -/
+theorem c11_eor_after_table (s2 : Sess) (g : Good s2 []) (h0 : s2.inflight = none) (opsA : List Op)
+    (hA : ∀ op ∈ opsA, op.isRibOnly = true) (k : Nat) (n : Nat)
+    (hem : (({ core := (s2.run (opsA ++ [Op.start] ++ List.replicate k Op.next)).1, sendEor := true } : ESess).step
+      .eor).2 ≠ []) :
+    AList.lookup n (applyEvs [] (s2.run (opsA ++ [Op.start] ++ List.replicate k Op.next)).2)
+      = (s2.run (opsA ++ [Op.start] ++ List.replicate k Op.next)).1.rib.cacheView n := by
+  have hidle := (c11_eor_needs_idle _ hem).1
+  have hup : ∀ op ∈ opsA ++ [Op.start] ++ List.replicate k Op.next, op.isUp = true := by
+    intro op hop
+    simp only [List.mem_append, List.mem_singleton, List.mem_replicate] at hop
+    rcases hop with (h | h) | h
+    · have := hA op h; cases op <;> simp_all [Op.isRibOnly, Op.isUp]
+    · subst h; rfl
+    · rw [h.2]; rfl
+  have gr := good_run s2 [] _ hup g
+  -- rib-only operations never create a generator
+  have d : ∀ (s : Sess) (ops : List Op), (∀ op ∈ ops, op.isRibOnly = true) →
+      (s.run ops).1.inflight = s.inflight := by
+    intro s ops hops
+    induction ops generalizing s with
+    | nil => rfl
+    | cons o os ih =>
+      simp only [Sess.run]
+      rw [ih _ (fun x hx => hops x (List.mem_cons_of_mem _ hx))]
+      have := hops o List.mem_cons_self
+      cases o <;> first | rfl | simp [Op.isRibOnly] at this
+  -- the queues after `start; next^k` are those `start` left: nothing pending
+  have hnp : (s2.run (opsA ++ [Op.start] ++ List.replicate k Op.next)).1.rib.pending = false := by
+    rw [run_append, run_append]
+    simp only [nexts_rib]
+    simp only [Sess.run]
+    apply start_not_pending
+    rw [d s2 opsA hA]
+    exact h0
+  generalize s2.run (opsA ++ [Op.start] ++ List.replicate k Op.next) = r at *
+  have hinv := gr.inv n
+  simp only at hidle
+  rw [hidle, snapEff_not_pending _ _ _ _ hnp] at hinv
+  simpa using hinv
 
 end Exa.Props.C11
